@@ -21,7 +21,7 @@ RULE = ('cases are 3-8 armored objects of drawn kinds / payload lengths / bodies
         'kinds were decoded by the independent decoder and at least one corrupted delivery was judged; distinct = distinct '
         '(kind, payload length mod 48, delivery forms, fault places) tuples')
 TIERS = {"quick": {"runs": 8000, "budget_s": 80}, "thorough": {"runs": 300000, "budget_s": 1500}}
-PROBES = ('surrounding_text_quotes_armor_header', 'lone_public_subkey_armored', 'binary_ends_in_whitespace_octet', 'kind_pubkey', 'kind_privkey', 'kind_message', 'kind_signature', 'kind_cleartext', 'crc_leading_zero_octet', 'payload_mod3_0',
+PROBES = ('delivered_rewrapped_off_group', 'surrounding_text_quotes_armor_header', 'lone_public_subkey_armored', 'binary_ends_in_whitespace_octet', 'kind_pubkey', 'kind_privkey', 'kind_message', 'kind_signature', 'kind_cleartext', 'crc_leading_zero_octet', 'payload_mod3_0',
           'payload_mod3_1', 'payload_mod3_2', 'delivered_crlf', 'delivered_bytes', 'delivered_bytearray', 'delivered_file', 'delivered_surrounded',
           'extra_headers', 'f6_raised', 'f6_crc_warning', 'f6_same_payload', 'wrong_kind_rejected', 'body_zeros', 'body_ff')
 KINDS = ['message', 'message', 'message', 'pubkey', 'privkey', 'signature', 'cleartext']
@@ -36,7 +36,7 @@ def generate(rng, tier):
         st = {'id': 's%d' % i, 'op': 'armor', 'kind': kind, 'size': rng.choice(list(range(0, 100)) + [191, 192, 500, 2000, 4000]),
               'body': rng.choice(['random', 'random', 'zeros', 'ff', 'text']), 'seed': rng.randrange(1 << 30),
               'headers': rng.choice(HEADERS), 'uidlen': rng.randrange(1, 60), 'compression': rng.choice([0, 0, 1, 2]),
-              'forms': rng.sample(['str', 'bytes', 'bytearray', 'file', 'crlf', 'surrounded'], rng.choice([1, 2, 3])),
+              'forms': rng.sample(['str', 'bytes', 'bytearray', 'file', 'crlf', 'surrounded', 'rewrapped'], rng.choice([1, 2, 3])),
               'faults': [{'place': rng.choice(['body', 'body', 'body', 'crc', 'crc', 'header', 'begin', 'end']), 'pos': rng.random(),
                           'ch': rng.choice('ABCDEFGHabcdefgh0123456789+/')} for _ in range(rng.choice([2, 3, 6]))],
               'wrong_kind': rng.random() < 0.3}
@@ -230,6 +230,24 @@ def execute(case, ctx):
                 seams.fs().write(p, text.encode('ascii'))
                 t, ff = p, True
                 ctx.probe('delivered_file')
+            elif form == 'rewrapped':
+                # the same armor with its base64 body wrapped at another legal width (other writers use 60, 72 or 76 columns; a
+                # mail gateway may use any): the groups of four characters then straddle line ends
+                if st['kind'] == 'cleartext':
+                    continue
+                ls = text.split('\n')
+                try:
+                    b0 = ls.index('', 1) + 1
+                    b1 = max(i for i, x in enumerate(ls) if len(x) == 5 and x.startswith('='))
+                except ValueError:
+                    continue
+                joined = ''.join(ls[b0:b1])
+                width = [30, 62, 65, 70, 75, 76, 33, 48][st['seed'] % 8]
+                while joined and len(joined) % width != 0 and not joined[-(len(joined) % width):].strip('='):
+                    width -= 1          # a last line of pad characters alone is not generated
+                t = '\n'.join(ls[:b0] + [joined[i:i + width] for i in range(0, len(joined), width)] + ls[b1:])
+                if width % 4:
+                    ctx.probe('delivered_rewrapped_off_group')
             elif form == 'surrounded':
                 pre = 'Dear reader,\nsome mail text: with a colon\n\n'
                 if st['seed'] % 2:
